@@ -5,9 +5,12 @@ from h_vmops import AND, OR, NOT
 from h_types import ints_eq, seq_vals, sym_predicate, be16
 
 
-def sym_addr(I, h, tag, nsym=2):
+SYM_POS = (0, 5, 31)      # symbolic byte positions (first, inside, last); the other bytes are zero
+
+
+def sym_addr(I, h, tag):
     E = I.E
-    bs = [E.sym_int(f"{tag}_{i}", "u8") for i in range(nsym)] + [Int("u8", 0)] * (32 - nsym)
+    bs = [E.sym_int(f"{tag}_{i}", "u8") if i in SYM_POS else Int("u8", 0) for i in range(32)]
     return Agg("ContentAddress", [Cell(h.vec(bs, "array"))]), bs
 
 
@@ -27,10 +30,17 @@ def addrs_canonical(I, h, nmax=3):
     addrs = [sym_addr(I, h, f"a{k}") for k in range(n)]
     v = h.vec([a for a, _ in addrs])
     salt = [E.sym_int(f"salt_{i}", "u8") for i in range(2)] + [Int("u8", 0)] * 30
+    via_iter = bool(E.choose(2, "via_iterator"))
     if contract:
-        r = h.call("hash", "from_predicate_addrs_slice", [SliceRef(v, 0, n), h.ref(h.vec(list(salt), "array"))])
+        if via_iter:
+            r = h.call("hash", "from_predicate_addrs", [Iter("owned", cells=list(v.cells), i=0), h.ref(h.vec(list(salt), "array"))])
+        else:
+            r = h.call("hash", "from_predicate_addrs_slice", [SliceRef(v, 0, n), h.ref(h.vec(list(salt), "array"))])
     else:
-        r = h.call("hash", "from_solution_addrs_slice", [SliceRef(v, 0, n)])
+        if via_iter:
+            r = h.call("hash", "from_solution_addrs", [Iter("owned", cells=list(v.cells), i=0)])
+        else:
+            r = h.call("hash", "from_solution_addrs_slice", [SliceRef(v, 0, n)])
     if len(I.hash_log) != 1: raise Violation("hasher not fed exactly once", E.model_for())
     fed = I.hash_log[0]
     want_len = 32 * n + (32 if contract else 0)
@@ -90,7 +100,7 @@ def address_plumbing(I, h):
 CR = ["types", "hash"]
 HARNESSES = {
     "addrs_canonical": dict(props=["C17", "C04"], crates=CR, fn=addrs_canonical, params=dict(quick=dict(nmax=3), thorough=dict(nmax=4)), witnesses=["ok"],
-        bound=dict(quick="0..3 addresses (2 symbolic bytes each), with and without salt; SHA-256 uninterpreted", thorough="0..4 addresses"),
+        bound=dict(quick="0..3 addresses (bytes 0, 5 and 31 symbolic, so equal addresses and addresses differing only late are inside), slice and iterator constructors, with and without salt; SHA-256 uninterpreted", thorough="0..4 addresses"),
         replay=dict(kind="hash_addrs")),
     "address_plumbing": dict(props=["C17"], crates=CR, fn=address_plumbing, witnesses=["ok"],
         bound_text="predicate of 0..1 nodes / 0..1 edges, program of 0..2 bytes, contract of one predicate with symbolic salt; SHA-256 uninterpreted",
